@@ -12,6 +12,7 @@ PROGRAMS = {
     "fan": {"root": "fanout", "edit": ["fanout", "leaf", "idt"], "arg": True},
     "catch": {"root": "guard", "edit": ["guard", "boom", "rec", "leaf"], "arg": True, "bodies": {"boom": [0, 1, 2]}},
     "file": {"root": "fmain", "edit": ["fmain", "summ"], "file": True},
+    "file-nested": {"root": "fmain_n", "edit": ["fmain_n", "summ"], "file": True},
     "file-kw": {"root": "fmain_kw", "edit": ["fmain_kw", "summ"], "file": True},
     "versioned": {"root": "vtop", "edit": ["vtop"], "bump": ["vleaf"], "arg": True},
     "script": {"root": "stop", "edit": ["stop", "sh", "leaf"], "arg": True, "opts": {"sh": {"script": True}}},
@@ -146,7 +147,7 @@ def run(ctx):
     from engine.common import check_harness_errors
 
     seams.template_db()
-    progs_ = ctx.pick(["chain", "catch", "file", "file-kw", "versioned"], list(PROGRAMS))
+    progs_ = ctx.pick(["chain", "catch", "file", "file-kw", "file-nested", "versioned"], list(PROGRAMS))
     L = ctx.pick(3, 4)
     work = [(p, a, L if p != "catch" or not ctx.quick else 3) for p in progs_ for a in actions(p)]
     res = ctx.pmap(dfs, ctx.rotate(work), chunksize=1)
